@@ -19,8 +19,9 @@ PATTERNS = {
     "weakchiral4": (["C", "N", "O", "H"], [[0, 0, 0], [1.5, 0, 0], [1.5, 1.25, 0], [0.25, 0.5, 0.3125]], {"chiral"}),
     "mirrorsym5": (["C", "H", "H", "F", "Cl"], [[0, 0, 0], [0.625, 0.875, 0.5], [0.625, -0.875, 0.5], [-1.25, 0, 0.375], [0.25, 0, -1.5]], {"symmetric"}),
     "axis_asym4": (["C", "N", "O", "H"], [[0, 0, 0], [0, 2.0, 0], [0.75, 0.5, 0], [0.25, 1.25, 0.625]], {"asymmetric"}),
-    # four atoms in a plane, a fifth 1/16 A above it: the mirror image differs from the pattern by 1/8 A at one atom only
-    "faintchiral5": (["C", "N", "O", "H", "F"], [[0, 0, 0], [2.0, 0, 0], [2.5, 1.5, 0], [-0.5, 1.25, 0], [1.0, 0.75, 0.0625]], {"chiral"}),
+    # four atoms in a plane, a fifth 3/32 A above it: the mirror image differs from the pattern by 3/16 A at one atom only - more than
+    # 0.1 * sqrt(3), so at atol 0.1 some coordinate is off by more than atol whatever the orientation, yet less than 0.1 * sqrt(5)
+    "faintchiral5": (["C", "N", "O", "H", "F"], [[0, 0, 0], [2.0, 0, 0], [2.5, 1.5, 0], [-0.5, 1.25, 0], [1.0, 0.75, 0.09375]], {"chiral"}),
     "pair": (["C", "N"], [[0, 0, 0], [1.25, 0, 0]], {"collinear"}),
     "pair_y": (["C", "N"], [[0, 0, 0], [0, 1.25, 0]], {"collinear"}),
     "single": (["Zr"], [[0, 0, 0]], {"single"}),
@@ -191,6 +192,7 @@ def make_case(rng, k, flavor="mixed", pattern=None, big=None, cellkind=None):
     crossing = []
     last_offs = []
     planted_offs = []
+    noisy = [flavor in ("stretched", "stretched-axis")]
 
     def try_add(points, elements, far_from_origin=False, forced_q=None, corner=None, stretch=False, shear=None):
         for attempt in range(60):
@@ -278,6 +280,7 @@ def make_case(rng, k, flavor="mixed", pattern=None, big=None, cellkind=None):
             ff = cw2 @ inv
             if ff.min() > 1e-9 and ff.max() < 1 - 1e-9:
                 cw = cw2
+                noisy[0] = True
         base = len(pos)
         pos += list(cw)
         els += el
@@ -362,7 +365,9 @@ def make_case(rng, k, flavor="mixed", pattern=None, big=None, cellkind=None):
         els = [els[i] for i in perm]
         planted = [tuple(newidx[i] for i in t) for t in planted]
     hints = None
-    if n >= 3 and rng.random() < 0.35:
+    # hints are only given when every copy is an exact image of the pattern: the search anchors its fit at the hinted atoms, and a short
+    # hinted axis magnifies positional noise of a copy that is well inside the tolerance in the least-squares sense
+    if n >= 3 and rng.random() < 0.35 and not noisy[0]:
         for _ in range(20):
             a1, a2, o = rng.sample(range(n), 3)
             ax = pp[a2] - pp[a1]
@@ -371,7 +376,7 @@ def make_case(rng, k, flavor="mixed", pattern=None, big=None, cellkind=None):
                 break
     return dict(name=name, tags=sorted(tags), els=els, pos=np.array(pos), cell=cell, pel=el, pp=pp, atol=atol, hints=hints,
                 planted=planted if distract == 0 else None, planted_offs=planted_offs, decoys=decoys, distractors=distract, cellkind=ckind,
-                crossing=crossing, k=k)
+                crossing=crossing, k=k, noisy=noisy[0])
 
 
 def atoms_of(c):
@@ -497,11 +502,11 @@ def case_json(c):
     return {"name": c["name"], "els": list(c["els"]), "pos": [list(zv(p)) for p in c["pos"]], "cell": [list(zv(r)) for r in c["cell"]],
             "pel": list(c["pel"]), "pp": [list(zv(p)) for p in c["pp"]], "atol": [c["atol"].numerator, c["atol"].denominator],
             "hints": c["hints"], "planted": c["planted"], "planted_offs": c.get("planted_offs"), "decoys": c["decoys"], "distractors": c["distractors"],
-            "cellkind": c["cellkind"], "crossing": c["crossing"], "k": c["k"], "grid": G, "pre": c.get("pre")}
+            "cellkind": c["cellkind"], "crossing": c["crossing"], "k": c["k"], "grid": G, "pre": c.get("pre"), "noisy": c.get("noisy", False)}
 
 
 def case_from_json(j):
     return dict(name=j["name"], tags=[], els=j["els"], pos=np.array(j["pos"], float) / G, cell=np.array(j["cell"], float) / G,
                 pel=j["pel"], pp=np.array(j["pp"], float) / G, atol=Fraction(j["atol"][0], j["atol"][1]),
                 hints=tuple(j["hints"]) if j["hints"] else None, planted=[tuple(g) for g in j["planted"]] if j["planted"] is not None else None,
-                planted_offs=j.get("planted_offs"), decoys=j.get("decoys", []), distractors=j.get("distractors", 0), cellkind=j.get("cellkind", "?"), crossing=j.get("crossing", []), k=j.get("k", 0), pre=j.get("pre"))
+                planted_offs=j.get("planted_offs"), decoys=j.get("decoys", []), distractors=j.get("distractors", 0), cellkind=j.get("cellkind", "?"), crossing=j.get("crossing", []), k=j.get("k", 0), pre=j.get("pre"), noisy=j.get("noisy", False))
